@@ -13,7 +13,7 @@ TARGET = {
  'C08-m1': [('C08', None)], 'C08-m2': [('C08', None)], 'C08-m3': [('C08', None)],
  'C09-m1': [('C09', 'OVERLAP_w8'), ('C09', 'OVERLAP_w32')], 'C09-m2': [('C09', 'GAP_w32')],
  'C10-m1': [('C01', 'O2_reader_w32'), ('C10', 'O5')], 'C10-m2': [('C12', None)],
- 'C12-m1': [('C12', 'utc_seek')], 'C12-m2': [('C12', None)],
+ 'C12-m1': [('C12', 'utc_seek')], 'C12-m2': [('C12', 'tick')],
  'C13-m1': [('C13', 'O2_user_data')], 'C13b-m1': [('C13', 'O1_strings')], 'C19b-m1': [('C19', 'O3_repair')], 'C19b-m2': [('C19', 'O2_rd_open')], 'C03b-m1': [('C03', None)], 'C03b-m2': [('C03', 'core_wr_data')], 'C13b-m2': [('C10', 'O1'), ('C13', 'O3_identity')], 'C13-m2': [('C13', 'O2_signal_def')],
  'C14-m1': [('C14', None)], 'C14-m2': [('C14', None)],
  'C15-m1': [('C15', 'w4'), ('C15', 'w1')], 'C15-m2': [('C15', 'O2_block')],
@@ -23,6 +23,7 @@ TARGET = {
  'C20-m1': [('C20', 'ALIAS')], 'C20-m2': [('C20', 'KMM')], 'C20-m3': [('C20', 'KMM_f32')],
  'C17-m1': [('C17', None)], 'C17-m2': [('C17', None)], 'C11-m1': [('C11', 'seek')], 'C11-m2': [('C11', 'iterate')],
  'C02-m1': [('C02', None)], 'C02-m2': [('C02', 'LN')],
+ 'C15c-m1': [('C15', 'O2_block')], 'C05c-m1': [('C05', None)],
  'C04-m1': [('C04', 'errprop')], 'C04-m2': [('C04', 'errprop')], 'C05-m1': [('C05', None)], 'C05-m2': [('C02', 'LN_two')],
 }
 
